@@ -17,6 +17,16 @@ returned as the decimal value of their 64 bits.
   poly tin=<spec> tout=<spec> P=<nat rows> C=<rows> b=<vec> x=<vec> p=<vec> J=<rows>
   rbf k=<kernel> eps=<bits> tol=<bits> C=<bit rows> W=<bit rows> avg=<bits> x=<bits>  p=<bits> J=<bit rows>
   split out=<sizes> in=<sizes> J=<rows>      blocks `o,i=<rows>` separated by `|`
+  sur out=<sizes> in=<sizes> so=<idx> si=<idx> p=<vec> J=<rows|_>
+                                             surrogate discipline with requested names (positions in the model's
+                                             name lists): `y=<vec>` (outputs in requested order) then the blocks
+                                             `n,m=<rows>` of the requested outputs/inputs, separated by `|`
+  sess d=<n> dout=<n> ops=<op>|<op>|…        one model object trained several times; operations
+                                               L!<fit_transformers 0/1>!<tin|_>!<tout|_>!lin!<W rows>!<b>
+                                               L!<0/1>!<tin|_>!<tout|_>!poly!<nat rows P>!<C rows>!<b>
+                                               Q!<x>
+                                             answers joined by `|`: `trained` after a training, `p=<vec>~J=<rows>`
+                                             after a query (`untrained` before the first training)
 Pipeline spec: `E` (empty) or steps joined by `+`:
   A:<coef>:<off>   fitted scaler          L:<mean>:<rows of W>   fitted linear reduction
   C:<coef>:<off>   Scaler to fit (one value is broadcast)        M   MinMaxScaler to fit
@@ -187,6 +197,65 @@ def answerSplit (toks : List String) : String :=
     if blocks.isEmpty then "[]" else "|".intercalate blocks
   | _, _, _ => "bad-line"
 
+def answerSur (toks : List String) : String :=
+  match (kv toks "out").bind parseNatList?, (kv toks "in").bind parseNatList?,
+        (kv toks "so").bind parseNatList?, (kv toks "si").bind parseNatList?,
+        (kv toks "p").bind parseRatList?, kv toks "J" with
+  | some os, some is, some so, some si, some p, some js =>
+    if so.any (fun o => os.length ≤ o) || si.any (fun i => is.length ≤ i) then "bad-selection" else
+    let tot := (selSizes os so).foldl (· + ·) 0
+    let y := listOf tot (concatSel os (vecOf p) so)
+    let blocks : List String :=
+      if js = "_" then [] else
+      match parseMat? js with
+      | none => ["bad-J"]
+      | some j =>
+        (List.range so.length).flatMap (fun n => (List.range si.length).map (fun m =>
+          s!"{n},{m}={showMat (rowsOf (os.getD (so.getD n 0) 0) (is.getD (si.getD m 0) 0) (surBlock os is (matOf j) so si n m))}"))
+    "|".intercalate (s!"y={showRatList y}" :: blocks)
+  | _, _, _, _, _, _ => "bad-line"
+
+def parseCore? (fields : List String) : Option (Core Rat) :=
+  match fields with
+  | ["lin", w, b] => do
+      let w ← parseMat? w; let b ← parseRatList? b
+      some (Core.lin (matOf w) (vecOf b))
+  | ["poly", pw, c, b] => do
+      let pw ← parseNatMat? pw; let c ← parseMat? c; let b ← parseRatList? b
+      some (Core.poly pw.length (fun p j => (pw.getD p []).getD j 0) (matOf c) (vecOf b))
+  | _ => none
+
+def parseSOp? (s : String) : Option (SOp Rat) :=
+  match s.splitOn "!" with
+  | ["Q", x] => (parseRatList? x).map (fun x => SOp.query (vecOf x))
+  | "L" :: ft :: tin :: tout :: core => do
+      let ft ← (if ft = "1" then some true else if ft = "0" then some false else none)
+      let tin ← (if tin = "_" then some [] else fittedPipe? tin)
+      let tout ← (if tout = "_" then some [] else fittedPipe? tout)
+      let core ← parseCore? core
+      some (SOp.learn ft tin tout core)
+  | _ => none
+
+def answerSess (toks : List String) : String :=
+  match (kv toks "d").bind String.toNat?, (kv toks "dout").bind String.toNat?, kv toks "ops" with
+  | some d, some dout, some ops =>
+    match (ops.splitOn "|").mapM parseSOp? with
+    | none => "bad-ops"
+    | some ops =>
+      let s0 : Sess Rat := { trained := false, tin := [], tout := [], core := Core.lin (fun _ _ => 0) (fun _ => 0) }
+      let rec go (s : Sess Rat) (ops : List (SOp Rat)) (acc : List String) : List String :=
+        match ops with
+        | [] => acc.reverse
+        | op :: rest =>
+          let (s', out) := Sess.step d dout s op
+          let txt := match out with
+            | none => "trained"
+            | some (p, J) =>
+              if s.trained then s!"p={showRatList (listOf dout p)}~J={showMat (rowsOf dout d J)}" else "untrained"
+          go s' rest (txt :: acc)
+      "|".intercalate (go s0 ops [])
+  | _, _, _ => "bad-line"
+
 def answer (line : String) : String :=
   match tokens line with
   | "der" :: rest =>
@@ -222,6 +291,8 @@ def answer (line : String) : String :=
   | "poly" :: rest => answerReg rest true
   | "rbf" :: rest => answerRbf rest
   | "split" :: rest => answerSplit rest
+  | "sur" :: rest => answerSur rest
+  | "sess" :: rest => answerSess rest
   | _ => "bad-op"
 
 def main : IO Unit := driverLoop (fun (_ : Unit) line => ((), answer line)) ()
